@@ -58,5 +58,13 @@ def stamp_chain_edit_cycle():
     return p, ops
 
 
+def stamp_sometimes():
+    """A target that records a checksum in some builds only: X1 stamped, X2 not stamped, X1 stamped again (a kept checksum of
+    X1 would call the third build unchanged and leave the consumer built from X2)."""
+    p = _prog(['s0'], [('mid', dict(deps=['s0'], stamp=True)), ('top', dict(deps=['mid'])), ('side', dict(deps=['mid'], head=True))])
+    ops = [B(['top', 'side']), ('edit_r', 's0'), ('stampflip', 'mid'), B(['top']), ('edit_back', 's0'), ('stampflip', 'mid'), B(['top']), B(['top', 'side']), B(['top', 'side'])]
+    return p, ops
+
+
 SCENARIOS = dict((f.__name__, f) for f in (tolerated_failure_same_checksum, tolerated_failure_plain, forced_after_check_same_command,
-                                           oob_dependency_fails_before_or_after, stamp_chain_edit_cycle))
+                                           oob_dependency_fails_before_or_after, stamp_chain_edit_cycle, stamp_sometimes))
